@@ -22,11 +22,8 @@ def h03(ctx, args, timeout=3000):
 def translate(ctx):
     """Runs the translator on /verif/wrappers with the compiler of /repo's current tree and syncs
     coq/GenC03 (files are rewritten only when their content changes, so `make` caches)."""
-    out = os.path.join(ctx.out, "gen")
+    out = os.path.join(ctx.out, "gen-%d" % os.getpid())     # private to this run
     os.makedirs(out, exist_ok=True)
-    for f in os.listdir(out):
-        if f.endswith(".v") or f.endswith(".casm"):
-            os.unlink(os.path.join(out, f))
     rc, log = h03(ctx, ["translate", WRAPPERS, out])
     if rc != 0 or not os.path.exists(os.path.join(out, "translate.json")):
         return {"ok": False, "errors": log[-2000:], "summary": {}}
@@ -64,22 +61,26 @@ def translate(ctx):
         "repo_head": vlib.repo_head(),
     }
     ctx.log("translator: %d wrappers, %d failed, %d Coq files rewritten" % (len(tr), len(errors), len(changed)))
+    if not errors:
+        import shutil
+        shutil.rmtree(out, ignore_errors=True)
     return {"ok": not errors, "errors": [(r["name"], r.get("error", "")[:500]) for r in errors],
             "summary": summary, "per_wrapper": {r["name"]: r for r in tr}}
 
 
 def run_fault(ctx):
-    out = os.path.join(ctx.out, "fault")
+    out = os.path.join(ctx.out, "fault-%d" % os.getpid())   # private to this run
     os.makedirs(out, exist_ok=True)
     p = os.path.join(out, "fault.json")
-    if os.path.exists(p):
-        os.unlink(p)
     rc, log = h03(ctx, ["fault", WRAPPERS, out, ctx.tier], timeout=3000)
     if rc != 0 or not os.path.exists(p):
         return {"error": log[-2000:], "summary": {}, "violations": [], "samples": []}
     r = json.load(open(p))
     if r.get("errors"):
         r["error"] = "; ".join(r["errors"][:5])
+    if not r.get("violations") and not r.get("errors"):
+        import shutil
+        shutil.rmtree(out, ignore_errors=True)
     return r
 
 
